@@ -125,7 +125,7 @@ class TableModel(DSOLModel):
 class Ref:
     """Reference semantics of a table program."""
 
-    def __init__(self, kinds, vals, prios, parents, cancels, specials=None, start=0):
+    def __init__(self, kinds, vals, prios, parents, cancels, specials=None, start=0, warmup=None):
         self.kinds, self.vals, self.prios = kinds, vals, prios
         self.parents, self.cancels, self.specials = parents, cancels, specials
         self.K = len(kinds)
@@ -138,6 +138,11 @@ class Ref:
         for j in range(self.K):
             if parents[j] < 0:
                 self.request(j)
+        if warmup is not None:
+            # the simulator schedules the warm-up after construct_model, maximum priority;
+            # it is an ordinary event for step() and the notification stream (slot -1)
+            self.seq += 1
+            self.pending.append([conv(warmup), 10, self.seq, -1])
 
     def request(self, j):
         v = self.vals[j]
@@ -183,6 +188,9 @@ class Ref:
         n = self.next_index()
         t, p, s, i = self.pending.pop(n)
         self.clock = t
+        if i < 0:
+            self.warmups = getattr(self, "warmups", 0) + 1
+            return i
         self.trace.append((t, i))
         for j in range(self.K):
             if self.parents[j] == i:
@@ -213,10 +221,5 @@ def settle(sim):
 
 
 def quiet(f, *a, **kw):
-    """run f with stdout/stderr of the code under test discarded (replay mode only)."""
-    if rt.MODE == "symbolic":
-        return f(*a, **kw)
-    import contextlib
-    import io
-    with contextlib.redirect_stdout(io.StringIO()), contextlib.redirect_stderr(io.StringIO()):
-        return f(*a, **kw)
+    """call f; output of the code under test is discarded process-wide by vf.replay / the worker."""
+    return f(*a, **kw)
